@@ -613,7 +613,18 @@ pub fn gen_inv(rng: &mut Rng, tree: &Tree, docs: &mut Docs, focus: Focus, main_s
         }
         _ => Shape::Files { mode: Mode::InplaceCheck, paths: gen_paths(rng, tree, &cwd, Mode::Check) },
     };
+    // `... | typstyle [--check] a.typ /dev/stdin b.typ`
+    let mut shape = shape;
+    let mut dev_stdin = false;
+    if let Shape::Files { mode, paths } = &mut shape {
+        if matches!(mode, Mode::Stdout | Mode::Check) && rng.chance(0.03) {
+            let at = rng.below(paths.len() + 1);
+            paths.insert(at, "/dev/stdin".to_string());
+            dev_stdin = true;
+        }
+    }
     let stdin = match &shape {
+        _ if dev_stdin => Some(docs.content()),
         Shape::Stdin { .. } => Some(docs.content()),
         _ => {
             if rng.chance(0.1) {
@@ -851,9 +862,9 @@ pub fn gen_case(seed: u64, profile: &str, params: &GenParams, oracle: &mut Oracl
                     (s, _) => s.clone(),
                     }
                 };
-                // an -i list must not name symlinks (DESIGN 4.3)
+                // an -i list must not name symlinks (DESIGN 4.3) nor /dev/stdin
                 if let Shape::Files { mode: Mode::Inplace, paths } = &q.shape {
-                    let has_link = paths.iter().any(|p| resolve(&q.cwd, p).map(|k| matches!(t.get(&k), Some(Node::Symlink(_)))).unwrap_or(false));
+                    let has_link = paths.iter().any(|p| p == "/dev/stdin" || resolve(&q.cwd, p).map(|k| matches!(t.get(&k), Some(Node::Symlink(_)))).unwrap_or(false));
                     if !has_link {
                         inv = q;
                     }
